@@ -265,11 +265,22 @@ func cmdReqRun(args []string) int {
 		defer cancel()
 		key := keyOf(c.s("key"))
 		var err error
+		// a gRPC server encodes what a unary handler returns; a response that cannot be encoded kills the process there
+		enc := func(resp interface{}, e error) error {
+			if e == nil {
+				if m, ok := resp.(interface{ Marshal() ([]byte, error) }); ok && m != nil {
+					if _, me := m.Marshal(); me != nil {
+						panic("response cannot be encoded: " + me.Error())
+					}
+				}
+			}
+			return e
+		}
 		switch c.s("h") {
 		case "etcd.Txn":
-			_, err = es.Txn(ctx, txnOf(c.s("txn"), key, valOf(c.s("val")), revOf(c.s("rev"))))
+			err = enc(es.Txn(ctx, txnOf(c.s("txn"), key, valOf(c.s("val")), revOf(c.s("rev")))))
 		case "etcd.Range":
-			_, err = es.Range(ctx, &etcdserverpb.RangeRequest{Key: key, RangeEnd: endOf(c.s("end"), key), Revision: revOf(c.s("rev")), Limit: limOf(c.s("limit")), CountOnly: c.b("countonly")})
+			err = enc(es.Range(ctx, &etcdserverpb.RangeRequest{Key: key, RangeEnd: endOf(c.s("end"), key), Revision: revOf(c.s("rev")), Limit: limOf(c.s("limit")), CountOnly: c.b("countonly")}))
 		case "etcd.Watch":
 			wctx, wcancel := context.WithTimeout(ctx, 40*time.Millisecond)
 			ws := newFakeWatchStream(wctx)
@@ -287,33 +298,33 @@ func cmdReqRun(args []string) int {
 				err = nil // the client went away: the normal end of a watch stream
 			}
 		case "etcd.Compact":
-			_, err = es.Compact(ctx, &etcdserverpb.CompactionRequest{Revision: revOf(c.s("rev"))})
+			err = enc(es.Compact(ctx, &etcdserverpb.CompactionRequest{Revision: revOf(c.s("rev"))}))
 		case "etcd.Put":
-			_, err = es.Put(ctx, &etcdserverpb.PutRequest{Key: key, Value: []byte("v")})
+			err = enc(es.Put(ctx, &etcdserverpb.PutRequest{Key: key, Value: []byte("v")}))
 		case "etcd.DeleteRange":
-			_, err = es.DeleteRange(ctx, &etcdserverpb.DeleteRangeRequest{Key: key})
+			err = enc(es.DeleteRange(ctx, &etcdserverpb.DeleteRangeRequest{Key: key}))
 		case "brain.Create":
-			_, err = bs.Create(ctx, &proto.CreateRequest{Key: key, Value: valOf(c.s("val"))})
+			err = enc(bs.Create(ctx, &proto.CreateRequest{Key: key, Value: valOf(c.s("val"))}))
 		case "brain.Update":
 			rq := &proto.UpdateRequest{Kv: &proto.KeyValue{Key: key, Value: valOf(c.s("val")), Revision: uint64(revOf(c.s("rev")))}}
 			if c.b("kvnil") {
 				rq.Kv = nil
 			}
-			_, err = bs.Update(ctx, rq)
+			err = enc(bs.Update(ctx, rq))
 		case "brain.Delete":
-			_, err = bs.Delete(ctx, &proto.DeleteRequest{Key: key, Revision: uint64(revOf(c.s("rev")))})
+			err = enc(bs.Delete(ctx, &proto.DeleteRequest{Key: key, Revision: uint64(revOf(c.s("rev")))}))
 		case "brain.Compact":
-			_, err = bs.Compact(ctx, &proto.CompactRequest{Revision: uint64(revOf(c.s("rev")))})
+			err = enc(bs.Compact(ctx, &proto.CompactRequest{Revision: uint64(revOf(c.s("rev")))}))
 		case "brain.Get":
-			_, err = bs.Get(ctx, &proto.GetRequest{Key: key, Revision: uint64(revOf(c.s("rev")))})
+			err = enc(bs.Get(ctx, &proto.GetRequest{Key: key, Revision: uint64(revOf(c.s("rev")))}))
 		case "brain.Range":
-			_, err = bs.Range(ctx, &proto.RangeRequest{Key: key, End: endOf(c.s("end"), key), Revision: uint64(revOf(c.s("rev"))), Limit: limOf(c.s("limit"))})
+			err = enc(bs.Range(ctx, &proto.RangeRequest{Key: key, End: endOf(c.s("end"), key), Revision: uint64(revOf(c.s("rev"))), Limit: limOf(c.s("limit"))}))
 		case "brain.RangeStream":
 			err = bs.RangeStream(&proto.RangeRequest{Key: key, End: endOf(c.s("end"), key), Revision: uint64(revOf(c.s("rev"))), Limit: limOf(c.s("limit"))}, &fakeRangeStream{fakeBrainStream: fakeBrainStream{ctx: ctx}})
 		case "brain.Count":
-			_, err = bs.Count(ctx, &proto.CountRequest{Key: key, End: endOf(c.s("end"), key)})
+			err = enc(bs.Count(ctx, &proto.CountRequest{Key: key, End: endOf(c.s("end"), key)}))
 		case "brain.ListPartition":
-			_, err = bs.ListPartition(ctx, &proto.ListPartitionRequest{Key: key, End: endOf(c.s("end"), key)})
+			err = enc(bs.ListPartition(ctx, &proto.ListPartitionRequest{Key: key, End: endOf(c.s("end"), key)}))
 		case "brain.Watch":
 			wctx, wcancel := context.WithTimeout(ctx, 40*time.Millisecond)
 			err = bs.Watch(&proto.WatchRequest{Key: key, Revision: uint64(revOf(c.s("rev")))}, &fakeBrainWatch{fakeBrainStream: fakeBrainStream{ctx: wctx}})
